@@ -85,7 +85,7 @@ def families(tier):
         fams.append(Pairs('LnLn', pose, lines, lines, both_orders=False, chunk=8))
         fams.append(Pairs('PtPl', pose, points, planes, chunk=2))
         fams.append(Pairs('LnPl', pose, planes, lines, chunk=4))
-    return fams
+    return A.with_int_mode(fams, tier)
 
 
 def run(tier, seed):
